@@ -5,7 +5,7 @@ import json
 
 from checks import pipeline as P, runtime as RT
 
-MODULES = ["contracts.rows", "contracts.externals", "contracts.balancing", "contracts.matcher", "contracts.comparator"]
+MODULES = ["contracts.rows", "contracts.externals", "contracts.balancing", "contracts.matcher", "contracts.comparator", "contracts.decomposer"]
 
 _cache = {}
 
